@@ -2112,6 +2112,12 @@ pub fn try_parse<I>(pattern: I, flags: api::Flags) -> Result<ir::Regex, Error>
 where
     I: Iterator<Item = u32> + Clone,
 {
+    // The `v` flag selects Unicode mode (with class set syntax), just as `u` does:
+    // strict grammar, simple case folding, code point matching.
+    let mut flags = flags;
+    if flags.unicode_sets {
+        flags.unicode = true;
+    }
     let mut p = Parser {
         input: pattern.peekable(),
         flags,
